@@ -463,11 +463,91 @@ func c14BigRequests(sec *ref.PMTSection, pmtPID int) [][]int {
 	return nonEmpty
 }
 
+// c14RemoveBig: RemoveElementaryStreams on a table with many streams: every single stream, every pair
+// (i, n-1-i), the even/odd positions, each half, and all; in list order and reversed.
+func c14RemoveBig(res *engine.Result, payload []byte, sec *ref.PMTSection) {
+	pids := c06PIDList(sec)
+	n := len(pids)
+	var lists [][]int
+	for i := 0; i < n; i++ {
+		lists = append(lists, []int{pids[i]})
+		if j := n - 1 - i; j > i {
+			lists = append(lists, []int{pids[i], pids[j]}, []int{pids[j], pids[i]})
+		}
+	}
+	var even, odd []int
+	for i, p := range pids {
+		if i%2 == 0 {
+			even = append(even, p)
+		} else {
+			odd = append(odd, p)
+		}
+	}
+	rev := append([]int(nil), pids...)
+	for i, j := 0, n-1; i < j; i, j = i+1, j-1 {
+		rev[i], rev[j] = rev[j], rev[i]
+	}
+	lists = append(lists, even, odd, pids[:n/2], pids[n/2:], pids, rev, rev[:n/2])
+	for _, l := range lists {
+		if len(l) == 0 {
+			continue
+		}
+		var pmt psi.PMT
+		var err error
+		if engine.Guard(res, "NewPMT", func() { pmt, err = psi.NewPMT(payload) }) || err != nil || pmt == nil {
+			res.Failf("RemoveElementaryStreams|any|NewPMT-error", "NewPMT failed: %v", err)
+			return
+		}
+		arg := append([]int(nil), l...)
+		engine.Guard(res, "RemoveElementaryStreams", func() { pmt.RemoveElementaryStreams(arg) })
+		removed := map[int]bool{}
+		for _, p := range l {
+			removed[p] = true
+		}
+		left := *sec
+		left.Streams = nil
+		for _, st := range sec.Streams {
+			if !removed[st.PID] {
+				left.Streams = append(left.Streams, st)
+			}
+		}
+		res.Evals++
+		pre := "RemoveElementaryStreams|many-streams|"
+		engine.Guard(res, "RemoveElementaryStreams|accessors", func() {
+			if !c06SameInts(arg, l) {
+				res.Failf(pre+"argument-modified", "the PID list handed to RemoveElementaryStreams was modified")
+			}
+			if want := c06PIDList(&left); !c06SameInts(pmt.Pids(), want) {
+				res.Failf(pre+"Pids", "after removing %d of %d streams (first removed PID %#x): Pids() has %d entries, want %d", len(l), n, l[0], len(pmt.Pids()), len(want))
+				return
+			}
+			c06VerifyStreams(res, pre, pmt.ElementaryStreams(), c06MakeWant(&left), false)
+			for _, q := range []int{l[0], l[len(l)-1]} {
+				if pmt.PIDExists(q) {
+					res.Failf(pre+"PIDExists", "PIDExists(%#x) is true after the stream was removed", q)
+				}
+			}
+		})
+		if len(res.Fail) > 6 {
+			return
+		}
+	}
+}
+
 func c14CheckBig(c c14BigCase) engine.Result {
 	var res engine.Result
 	sec := c06BigSection(c.SectionLength, c.Variant)
 	pmtPID := 0x0100
 	payload := c06Payload(c.Pointer, ref.PMTBytes(sec, false), 2)
+	if c.Variant == 2 || c.Pointer == 0 {
+		c14RemoveBig(&res, payload, &sec)
+	}
+	if c.Variant == 2 && len(sec.Streams) < 120 {
+		// the mid-sized tables are here for the removal sweep only
+		res.Nontrivial = 1
+		res.Outcome(c.SectionLength, c.Variant, len(sec.Streams))
+		return res
+	}
 	carrier := c06LeadNames[c.Pointer]
 	reqs := c14MakeReqs(&sec, false, ref.Pointer(c06Pointers[c.Pointer]), pmtPID, c14BigRequests(&sec, pmtPID))
 	if !c14Selfcheck(&res, &sec, reqs) {
@@ -514,6 +594,10 @@ func c14GenBig(r *engine.Run, emit func(c14BigCase)) {
 	// as many descriptor-less streams as fit (127, 128 and the maximum of 201)
 	for _, sl := range []int{13 + 5*127, 13 + 5*128 + 2, 1021} {
 		emit(c14BigCase{sl, 2, 0, false})
+	}
+	// mid-sized tables for the removal sweep: 15..17, 31..34, 63..66 streams
+	for _, n := range []int{15, 16, 17, 31, 32, 33, 34, 63, 64, 65, 66} {
+		emit(c14BigCase{13 + 5*n, 2, 0, false})
 	}
 }
 
@@ -654,7 +738,7 @@ func init() {
 			},
 			&engine.Enum[c14BigCase]{
 				Name: "large-pmt",
-				Rule: "case = section padded to section_length in {180,400,1021} (thorough: 14 lengths around the packet limits up to the maximal 1021; 1..~48 streams, last ES_info_length > 255) x 2 content variants (the second with PCR adaptation fields; plus sections of 127, 128 and 201 descriptor-less streams) x pointer_field {0,1,100} x last-packet style; per case every first-packet size 1..184 x second packet full/7 bytes x request lists (all, none/empty, absent, PAT PID, first, last, reversed pair, present+absent, every 5th single stream and its complement, even, odd, first half, all but last, PMT PID + odd); oracle as in 'filter'; non-trivial = each (case, split, request)",
+				Rule: "case = section padded to section_length in {180,400,1021} (thorough: 14 lengths around the packet limits up to the maximal 1021; 1..~48 streams, last ES_info_length > 255) x 2 content variants (the second with PCR adaptation fields; plus sections of 127, 128 and 201 descriptor-less streams); RemoveElementaryStreams on the large tables and on tables of 15..17, 31..34, 63..66 streams: every single stream, every pair (i, n-1-i) in both orders, even/odd positions, halves, all, reversed x pointer_field {0,1,100} x last-packet style; per case every first-packet size 1..184 x second packet full/7 bytes x request lists (all, none/empty, absent, PAT PID, first, last, reversed pair, present+absent, every 5th single stream and its complement, even, odd, first half, all but last, PMT PID + odd); oracle as in 'filter'; non-trivial = each (case, split, request)",
 				Gen:  c14GenBig, Check: witnessEnum(c14CheckBig, witnessPSI), Batch: 1,
 			},
 			&engine.Enum[c14ForgeCase]{
